@@ -235,6 +235,33 @@ pub fn c14(run: &mut Run) -> Stats {
             }
         }
     }
+    // the size-parameterised and alignment families of the sweeps (haystacks up to 140 characters)
+    {
+        let mut fam = sweep::scale_family(false);
+        fam.extend(sweep::alignment_family());
+        let known = &run.known;
+        let s = fam
+            .par_iter()
+            .fold(Stats::default, |mut st, (p, f, hs)| {
+                let pat: Vec<u32> = p.chars().map(|c| c as u32).collect();
+                let fl = Flags::parse(f);
+                if let Ok(ast) = crate::refparse::parse(&pat, fl) {
+                    let hays: Vec<(Hay, Vec<u16>, Vec<usize>)> = hs
+                        .iter()
+                        .filter(|h| h.chars().count() <= 140)
+                        .map(|h| {
+                            let hay = Hay::new(h.chars().map(|c| c as u32).collect());
+                            let (u, o) = enc16(&hay);
+                            (hay, u, o)
+                        })
+                        .collect();
+                    eval(&ast, fl, &hays, known, &mut st);
+                }
+                st
+            })
+            .reduce(Stats::default, Stats::merge);
+        total = total.merge(s);
+    }
     // hand-picked patterns whose programs touch surrogates directly
     for (p, f) in [("\\ud83d", ""), ("\\ude00", ""), ("\\ud83d\\ude00", ""), ("\\u{1F600}", "u"), ("[\\ud83d-\\ude00]", ""), ("[^\\ud83d]", ""), (".", "u"), (".", ""), ("(?<=.)", "u"), ("(?<=\\ude00)", ""), ("\\W", "u"), ("\\b", ""), ("[\\u{10000}-\\u{10FFFF}]", "u"), ("(.)\\1", "iu"), ("(?<!\\ud83d)\\ude00", "")] {
         raw_patterns.push((p.chars().map(|c| c as u32).collect(), Flags::parse(f)));
